@@ -17,9 +17,10 @@ theorem rowOf_none (s : SState) (x : Var) (h : x ∉ s.rows.map (·.1)) : rowOf 
     exact absurd (List.mem_map.mpr ⟨r, hr, hb⟩) h
 
 /-- conditions on the input of a run: every constraint mentions each variable once, and the
-problem variables are numbered from `N ≥ number of constraints` upwards (slack variables are below) -/
+problem variables are numbered from `N` upwards, where `N` is at least the number of constraints
+that are not plain bounds `x ≥ b` / `x ≤ b` (only those get slack variables, which are `0, 1, …`) -/
 def InputOK (N : Nat) (qs : List Ineq) : Prop :=
-  qs.length ≤ N ∧ ∀ q ∈ qs, DistinctVars q.jars ∧ ∀ x ∈ varsOf q.jars, N ≤ x
+  slackCount qs ≤ N ∧ ∀ q ∈ qs, DistinctVars q.jars ∧ ∀ x ∈ varsOf q.jars, N ≤ x
 
 theorem run_sat (N fuel : Nat) (qs : List Ineq) (hin : InputOK N qs) (s' : SState) (tr : List SState)
     (h : run fuel qs = (.sat s', tr)) :
